@@ -288,7 +288,7 @@ func replySiteOf(p *Program, fn *ssa.Function, c ssa.CallInstruction, bodyArg ss
 func allReplySites(p *Program) []ReplySite {
 	respT := p.lookupType("", "Response")
 	var out []ReplySite
-	for _, fn := range p.UFuncs() {
+	for _, fn := range p.UUnits() {
 		for _, c := range allCalls(fn) {
 			cc := c.Common()
 			if !cc.IsInvoke() || respT == nil || !types.Identical(cc.Value.Type(), respT) {
